@@ -3,6 +3,7 @@ import PoseVerif.Model.Spatial
 import PoseVerif.Model.Interp
 import PoseVerif.Model.Normalize3D
 import PoseVerif.Driver.Masked
+import PoseVerif.Model.Helpers
 /-! Driver: pose-body operations on the three backends (Float scalars; flat JSON ↔ nested arrays). -/
 namespace PoseVerif.Driver
 open Lean
@@ -50,6 +51,8 @@ def runBodyOps (j : Json) : R Json := do
       | "slice_step" => do pure (sliceStep be floatScalar floatIsZero (← getNat op "by") b)
       | "zero_filled" => pure (some (zeroFilledBody floatScalar b))
       | "copy" => pure (some b)
+      | "hide_points" => do pure (some (hidePoints floatScalar (← getNatArr (← op.getObjVal? "ixs")) b))
+      | "correct_wrist" => do pure (some (correctWrist floatIsZero (← getNat op "hand") (← getNat op "body") b))
       | "matmul" => do
         let rows ← (← (← op.getObjVal? "m").getArr?).toList.mapM fun r => do (← r.getArr?).toList.mapM f64OfJson
         pure (some (matmulBody be floatScalar floatIsZero rows b))
